@@ -10,7 +10,8 @@
 From Coq Require Import ZArith List Bool Sorted.
 From Low Require Import Lib.Bits Lib.BitSeq Model.BuilderOps Model.BitmapOf Spec.OfSpec
   Proofs.OfProofs Proofs.OfInspect Proofs.OfRoundTrip Proofs.BuilderProofs
-  Model.BitmapMask Spec.MaskSpec Proofs.MaskProofs Model.BitmapFmt Spec.FmtSpec Proofs.FmtProofs.
+  Model.BitmapMask Spec.MaskSpec Proofs.MaskProofs Model.BitmapFmt Spec.FmtSpec Proofs.FmtProofs
+  Model.Rank Model.BitmapNext Spec.OfQuerySpec Proofs.OfCompose.
 Import ListNotations.
 Open Scope Z_scope.
 
@@ -229,6 +230,53 @@ Theorem C12_Fmt_words_ones : forall ws s p,
 Proof. exact Fmt_words_ones. Qed.
 Print Assumptions C12_Fmt_words_ones.
 
+(** * widening: the constructors composed with the readers of C01 (Rank64/Rank128) and C13 (NextOne/PrevOne) *)
+(** on ANY bitmap whose 1-positions are the list s, with freshly built indexes: the rank at i is the number of
+    elements of s below i, the bit is membership of i, NextOne/PrevOne are the first/last element in [i, e) or -1 *)
+Theorem C12_query_by_ones : forall ws s,
+  words_ok ws -> ones (flat ws) = s ->
+  forall i e tr, 0 <= i <= e -> e <= 64 * zlen ws -> i < 64 * zlen ws -> 1 <= e ->
+  Rank64 ws (IndexRank64 ws tr) i = Some (count_below s i, Z.b2z (member s i)) /\
+  Rank128 ws (IndexRank128 ws) i = Some (count_below s i, Z.b2z (member s i)) /\
+  NextOne ws i e = Some (first_within s i e) /\
+  PrevOne ws i e = Some (last_within s i e).
+Proof. exact query_by_ones. Qed.
+Print Assumptions C12_query_by_ones.
+
+(** the bitmap Of builds from ascending positions answers every query by the position list itself *)
+Theorem C12_Of_query : forall ps opt,
+  StronglySorted Z.lt ps -> (forall p, In p ps -> 0 <= p) ->
+  exists r, Of ps opt = Some r /\ zlen r = words_for (of_bits ps opt) /\
+  forall i e tr, 0 <= i <= e -> e <= 64 * zlen r -> i < 64 * zlen r -> 1 <= e ->
+  Rank64 r (IndexRank64 r tr) i = Some (count_below ps i, Z.b2z (member ps i)) /\
+  Rank128 r (IndexRank128 r) i = Some (count_below ps i, Z.b2z (member ps i)) /\
+  NextOne r i e = Some (first_within ps i e) /\
+  PrevOne r i e = Some (last_within ps i e).
+Proof. exact Of_query_ascending. Qed.
+Print Assumptions C12_Of_query.
+
+(** sorted with duplicates, on the domain of the check ([query_dom]) *)
+Theorem C12_Of_query_sorted : forall ps opt i e tr,
+  query_dom ps opt i e = true ->
+  exists r, Of ps opt = Some r /\
+    (Rank64 r (IndexRank64 r tr) i, Rank128 r (IndexRank128 r) i, NextOne r i e, PrevOne r i e) =
+    (let '(a, b, c, d) := spec_query (usort ps) i e in (Some a, Some b, Some c, Some d)).
+Proof. exact Of_query. Qed.
+Print Assumptions C12_Of_query_sorted.
+
+(** the Words of a Builder after any history answer every query by the positions set so far *)
+Theorem C12_Builder_query : forall n ops,
+  0 <= n -> forallb bop_dom ops = true ->
+  exists b0 b, NewBuilder n = Some b0 /\ bfold b0 ops = Some b /\
+  let s := usort (abits (fold_left astep ops abs0)) in
+  forall i e tr, 0 <= i <= e -> e <= 64 * zlen (Words b) -> i < 64 * zlen (Words b) -> 1 <= e ->
+  Rank64 (Words b) (IndexRank64 (Words b) tr) i = Some (count_below s i, Z.b2z (member s i)) /\
+  Rank128 (Words b) (IndexRank128 (Words b)) i = Some (count_below s i, Z.b2z (member s i)) /\
+  NextOne (Words b) i e = Some (first_within s i e) /\
+  PrevOne (Words b) i e = Some (last_within s i e).
+Proof. exact Builder_query. Qed.
+Print Assumptions C12_Builder_query.
+
 (** * non-vacuity *)
 (** Of: positions at 63/64/65 and a gap of more than 3 words, n smaller than last+1 *)
 Example C12_Of_nonvacuous :
@@ -299,3 +347,13 @@ Proof.
   repeat split; try (vm_compute; reflexivity).
   exists (match Fmt 8 true [5; 2^63] with Some s => s | None => [] end). vm_compute. intuition congruence.
 Qed.
+
+(** queries on a built bitmap: three words, an all-zero word between the 1-bits, a query in the last word *)
+Example C12_query_nonvacuous :
+  query_dom [0; 63; 64; 190] (Some 100) 65 192 = true /\
+  Of [0; 63; 64; 190] (Some 100) = Some [2^63 + 1; 1; 2^62] /\
+  Rank64 [2^63 + 1; 1; 2^62] (IndexRank64 [2^63 + 1; 1; 2^62] true) 65 = Some (3, 0) /\
+  Rank128 [2^63 + 1; 1; 2^62] (IndexRank128 [2^63 + 1; 1; 2^62]) 190 = Some (3, 1) /\
+  NextOne [2^63 + 1; 1; 2^62] 65 192 = Some 190 /\ PrevOne [2^63 + 1; 1; 2^62] 65 190 = Some (-1) /\
+  spec_query [0; 63; 64; 190] 65 192 = ((3, 0), (3, 0), 190, 190).
+Proof. vm_compute. intuition congruence. Qed.
